@@ -706,7 +706,7 @@ ZERO_TOLERANT_METRICS = ["additive_symmetric", "max_symmetric", "min_symmetric",
 # ---------------------------------------------------------------------------------------------------
 # the forest an object holds after learn(): judged on the object's OWN node features and labels
 # ---------------------------------------------------------------------------------------------------
-def learn_traces(rng, count, metrics=("euclidean", "log_squared_euclidean", "manhattan"), other_queries=False):
+def learn_traces(rng, count, metrics=("euclidean", "log_squared_euclidean", "manhattan"), other_queries=False, iters_choices=(1, 1, 2, 3, 10), seps=(0.5, 1.0, 2.0), sizes=((5, 12), (3, 8))):
     """Runs SupervisedOPF.learn on small overlapping sets and returns (scenario-like dict, trace) pairs in which the
     training set is whatever the object's nodes hold afterwards (features, true labels); the training set is then
     re-predicted (resubstitution).  The forest left by learn() is a supervised training result like any other."""
@@ -718,16 +718,16 @@ def learn_traces(rng, count, metrics=("euclidean", "log_squared_euclidean", "man
     out = []
     for i in range(count):
         r = np.random.default_rng(rng.randrange(2**31))
-        nt, nv = rng.randrange(5, 12), rng.randrange(3, 8)
+        nt, nv = rng.randrange(*sizes[0]), rng.randrange(*sizes[1])
         k = rng.choice([2, 2, 3])
-        sep = rng.choice([0.5, 1.0, 2.0])
+        sep = rng.choice(list(seps))
         yt = np.array([j % k for j in range(nt)])
         yv = np.array([j % k for j in range(nv)])
         Xt = r.normal(size=(nt, 2)) + sep * yt[:, None]
         Xv = r.normal(size=(nv, 2)) + sep * yv[:, None]
         met = rng.choice(list(metrics))
         m = SupervisedOPF(distance=met)
-        iters = rng.choice([1, 1, 2, 3, 10])
+        iters = rng.choice(list(iters_choices))
         np.random.seed(i)
         scn = {"kind": "sup", "mode": "metric", "metric": met, "learn": True, "Xt": Xt.tolist(), "yt": yt.tolist(), "Xv": Xv.tolist(), "yv": yv.tolist(), "n_iterations": iters, "np_seed": i}
         try:
